@@ -213,7 +213,7 @@ def rule_b(ctx):
                 continue
         row = table.get((fn_key(b), ex))
         if row:
-            counts[(fn_key(b), ex)] = counts.get((fn_key(b), ex), 0) + 1
+            counts[(fn_key(b), ex)] = counts.get((fn_key(b), ex), 0) + drops.incoming_paths(b, bb)
             used.add((fn_key(b), ex))
             ctx.ok("C14-B", key, s, b.id, row, how="table")
             continue
